@@ -18,7 +18,8 @@ import perscheck
 KNOWN = "C03-rollback-failed-after-complete-frame"
 
 THEOREMS = {"Properties.C03": [
-    "C03_wal_failure_atomic", "C03_wal_failure_prefix", "C03_ack_durable", "C03_no_ack_after_poison",
+    "C03_wal_failure_atomic", "C03_wal_failure_prefix", "C03_ack_durable", "C03_reachable_inv",
+    "C03_torn_tail_reads_as_complete_frames", "C03_no_ack_after_poison",
     "C03_invalid_input_no_effect", "C03_engine_failure_atomic", "C03_engine_history", "C03_others_untouched",
     "C03_complete_frame_leftover_refuted", "C03_complete_frame_leftover_batch_refuted",
     "C03_prefix_model_refuted", "C03_nonvacuous_short_enospc_failed_truncate",
